@@ -339,6 +339,7 @@ def run(ctx):
     prescan_tag_rules(ctx)
     prescan_dispatch_position(ctx)
     bom_table(ctx)
+    label_decoding(ctx)
 
 
 def bom_table(ctx):
@@ -370,6 +371,30 @@ def bom_table(ctx):
                 "U+0000, not UTF-32)" % (kn, label, label), {"bom": kn, "label": label}, detail={"bom": kn, "label": label})
     for kn in sorted(set(std) - seen):
         r.bad("C06.10", "bom::%s" % kn, f.where, "the BOM table has no entry for %s" % kn)
+
+
+def label_decoding(ctx):
+    """C06.11: an encoding label found in the byte stream is ASCII; a label with non-ASCII bytes is not a label (the prescan then
+    keeps looking / the next source of the precedence applies).  Dropping or replacing the offending bytes turns garbage such as
+    `charset=\xe2\x80\x9cutf-8\xe2\x80\x9d` into a valid label."""
+    r = ctx.r
+    r.rule("C06.11", "byte labels are decoded strictly as ASCII; undecodable labels are rejected", floor=1)
+    f = ctx.repo.func(REL, "lookupEncoding")
+    decs = [c for c in ast.walk(f.node) if isinstance(c, ast.Call) and isinstance(c.func, ast.Attribute) and c.func.attr == "decode"]
+    if len(decs) != 1:
+        r.idiom("C06.11", False, "label-ascii-strict", f.where, "lookupEncoding: the decoding of a byte label was not found")
+        return
+    d = decs[0]
+    args = [ctx.ce.try_eval(a, f.module) for a in d.args] + [ctx.ce.try_eval(k.value, f.module) for k in d.keywords]
+    lenient = any(a in ("ignore", "replace", "backslashreplace", "surrogateescape") for a in args)
+    in_try = any(isinstance(t, ast.Try) and any(x is d for s in t.body for x in ast.walk(s)) and
+                 any(isinstance(s, ast.Return) and (s.value is None or norm(s.value) == "None") for h in t.handlers for s in h.body)
+                 for t in ast.walk(f.node))
+    r.idiom("C06.11", args[:1] == ["ascii"] and not lenient and in_try, "label-ascii-strict", "%s:%d" % (REL, d.lineno),
+            "lookupEncoding: byte label decoding `%s` not recognised" % norm(d),
+            wrong=[(lenient, "lookupEncoding decodes a byte label with error handler %r: non-ASCII bytes are dropped / replaced instead "
+                             "of making the label invalid, so `<meta charset=\\u201cutf-8\\u201d>` is accepted by the prescan" % [a for a in args[1:]][:1])],
+            detail={"decode": norm(d)})
 
 
 def decoder_rule(ctx, rid):
